@@ -8,11 +8,13 @@ from ..core import Case
 PROP = "C04"
 NB = 4          # entraited leaf traits B0..B3
 STD = {4: "::core::clone::Clone", 5: "::core::fmt::Debug"}     # plus two std traits as bounds 4 and 5
-ALLB = list(range(NB)) + sorted(STD)
+HR = 6          # a leaf trait with a lifetime parameter, always required through a higher-ranked bound: for<'q> BL<'q>
+ALLB = list(range(NB)) + sorted(STD) + [HR]
 
 PRELUDE = "\n".join(
     ["#[::entrait::entrait] pub trait B%d { fn b%d(&self) -> i32; }" % (k, k) for k in range(NB)] + [
         "macro_rules! implb { ($t:ty; $($b:ident $m:ident),*) => { $(impl $b for $t { fn $m(&self) -> i32 { 0 } })* }; }",
+        "#[::entrait::entrait] pub trait BL<'q> { fn bl(&self) -> &'q str; }",
     ])
 
 
@@ -24,7 +26,8 @@ def probe_types(declared):
         impls = ", ".join("B%d b%d" % (k, k) for k in bs if k < NB)
         derives = [d for k, d in ((4, "Clone"), (5, "Debug")) if k in bs]
         head = ("#[derive(%s)] " % ", ".join(derives)) if derives else ""
-        return "%spub struct %s { %s }\nimplb!(%s; %s);" % (head, name, fields, name, impls)
+        hr = ("\nimpl<'q> BL<'q> for %s { fn bl(&self) -> &'q str { \"\" } }" % name) if HR in bs else ""
+        return "%spub struct %s { %s }\nimplb!(%s; %s);%s" % (head, name, fields, name, impls, hr)
     P["Full"] = (mk("Full", "pub x: u8", allb), set(allb), True, True)
     for k in sorted(set(declared)):
         bs = [b for b in allb if b != k]
@@ -37,6 +40,8 @@ def probe_types(declared):
 
 
 def bname(b):
+    if b == HR:
+        return "for<'q> BL<'q>"
     return STD.get(b, "B%d" % b)
 
 
@@ -50,13 +55,30 @@ def make_fn(rng, name, bs, byval, form):
     return ("async " if rng.random() < 0.33 else "") + make_sync_fn(rng, name, bs, byval, form)
 
 
+def make_relaxed_fn(name, bs, form):
+    bt = " + ".join(["?Sized"] + [bname(b) for b in bs])
+    if form == "inline":
+        return "fn %s<D: %s>(deps: &D) -> i32 { 0 }" % (name, bt)
+    if form == "where":
+        return "fn %s<D>(deps: &D) -> i32 where D: %s { 0 }" % (name, bt)
+    return "fn %s(deps: &(impl %s)) -> i32 { 0 }" % (name, bt)
+
+
 def make_sync_fn(rng, name, bs, byval, form):
+    if not byval and form in ("inline", "where", "impl") and not (form == "impl" and not bs) and rng.random() < 0.12:
+        # a relaxed bound on the dependency (`?Sized`): legal on the fn, never a requirement of the impl
+        return make_relaxed_fn(name, bs, form)
     body = "{ 0 }"
     dv = "D" if byval else "&D"
     if form == "inline":
         g = "<D%s>" % ((": " + bounds_text(bs)) if bs else "")
         return "fn %s%s(deps: %s) -> i32 %s" % (name, g, dv, body)
     if form == "where":
+        if HR in bs and rng.random() < 0.6:
+            # the binder written on the predicate instead of on the bound
+            rest = [b for b in bs if b != HR]
+            preds = ([("D: " + bounds_text(rest))] if rest else []) + ["for<'q> D: BL<'q>"]
+            return "fn %s<D>(deps: %s) -> i32 where %s %s" % (name, dv, ", ".join(preds), body)
         w = (" where D: " + bounds_text(bs)) if bs else ""
         return "fn %s<D>(deps: %s) -> i32%s %s" % (name, dv, w, body)
     if form == "split":
@@ -196,8 +218,8 @@ def header_check(c, rep):
             if ci is None:
                 continue
             for b in tok.render(pred[ci + 1:]).split("+"):
-                got.append(b.strip())
-    want_b = sorted([bname(b).replace("::", " :: ").strip() for b in m["declared"]] + [":: core :: marker :: Sized"] * sum(1 for d in m["desc"] if d[0] == "impl" and not d[1]))
+                got.append(b.replace(" ", ""))
+    want_b = sorted([bname(b).replace(" ", "") for b in m["declared"]] + ["::core::marker::Sized"] * sum(1 for d in m["desc"] if d[0] == "impl" and not d[1]))
     if sorted(got) != want_b:
         rep.violation(c.id, "where-bounds", "impl where-clause bounds %s, declared %s" % (sorted(got), want_b), {"header": txt})
     rep.bump("impl_headers_checked")
